@@ -312,7 +312,7 @@ pub fn check(world: &World, j: &Judgement, rr: &RunResult, cfg: &OracleCfg) -> V
                         model_extract(p, &s.layout.content)
                     }
                     Some(_) => continue,
-                    None => trim_ascii(&s.layout.content).to_string(),
+                    None => model::trim_content(&s.layout.content).to_string(),
                 };
                 expected_payloads.insert(tok.to_string(), model::lua_payload(&s.file, &s.layout, &content));
             }
@@ -363,7 +363,7 @@ pub fn check(world: &World, j: &Judgement, rr: &RunResult, cfg: &OracleCfg) -> V
                     best = Some(vec![]);
                     break;
                 }
-                None => trim_ascii(&sel.layout.content).to_string(),
+                None => model::trim_content(&sel.layout.content).to_string(),
             };
             let mut bad = Vec::new();
             if r.method != "POST" {
@@ -404,9 +404,6 @@ pub fn check(world: &World, j: &Judgement, rr: &RunResult, cfg: &OracleCfg) -> V
     out
 }
 
-fn trim_ascii(s: &str) -> &str {
-    s.trim_matches(|c: char| c == ' ' || c == '\t' || c == '\n' || c == '\r')
-}
 
 fn model_extract(pattern: &str, content: &str) -> String {
     // re-use the model's reference matcher through a one-block judgement-free path
